@@ -6,10 +6,13 @@ package main
 // undefined view names injected below the client.
 
 import (
+	"bufio"
 	"bytes"
+	"context"
 	"encoding/json"
 	"fmt"
 	"os"
+	"os/exec"
 	"path/filepath"
 	"sort"
 	"strings"
@@ -34,7 +37,7 @@ func genValue(p *Pool, t string, depth, mode int, r *vh.RNG) map[string]any {
 	out := map[string]any{}
 	for _, a := range ty.Attrs {
 		set := a.Req || mode == 1 || (mode == 0 && r.Chance(2, 3))
-		if a.isRes() {
+		if a.pointsTo() {
 			switch {
 			case depth >= 3:
 				set = false
@@ -57,15 +60,22 @@ func genValue(p *Pool, t string, depth, mode int, r *vh.RNG) map[string]any {
 				xs[i] = vh.Pick(r, words)
 			}
 			out[a.Name] = xs
-		case "res":
+		case "res", "user":
 			out[a.Name] = genValue(p, a.Ref, depth+1, mode, r)
-		case "coll":
+		case "coll", "arrres":
 			n := 1 + r.Intn(2)
 			xs := make([]any, n)
 			for i := range xs {
 				xs[i] = genValue(p, a.Ref, depth+1, mode, r)
 			}
 			out[a.Name] = xs
+		case "mapres":
+			n := 1 + r.Intn(2)
+			m := map[string]any{}
+			for i := 0; i < n; i++ {
+				m[fmt.Sprintf("k%d", i)] = genValue(p, a.Ref, depth+1, mode, r)
+			}
+			out[a.Name] = m
 		}
 	}
 	return out
@@ -91,12 +101,19 @@ func toDG(p *Pool, t string, x map[string]any) *dg.Val {
 			for _, s := range v.([]any) {
 				e.Elems = append(e.Elems, &dg.Val{K: "string", S: s.(string)})
 			}
-		case "res":
+		case "res", "user":
 			e = toDG(p, a.Ref, v.(map[string]any))
-		case "coll":
+		case "coll", "arrres":
 			e = &dg.Val{K: "array", Elems: []*dg.Val{}}
 			for _, s := range v.([]any) {
 				e.Elems = append(e.Elems, toDG(p, a.Ref, s.(map[string]any)))
+			}
+		case "mapres":
+			e = &dg.Val{K: "map", Keys: []*dg.Val{}, Elems: []*dg.Val{}}
+			m := v.(map[string]any)
+			for _, k := range vh.SortedKeys(m) {
+				e.Keys = append(e.Keys, &dg.Val{K: "string", S: k})
+				e.Elems = append(e.Elems, toDG(p, a.Ref, m[k].(map[string]any)))
 			}
 		}
 		out.Names = append(out.Names, a.Name)
@@ -162,10 +179,16 @@ func fromTree(p *Pool, t string, tr *rt.Tree) any {
 			if len(xs) > 0 { // an allocated but empty array is the zero value (generated arrays are never empty)
 				out[a.Name] = xs
 			}
-		case "res":
+		case "res", "user", "coll", "arrres":
 			out[a.Name] = fromTree(p, a.Ref, e)
-		case "coll":
-			out[a.Name] = fromTree(p, a.Ref, e)
+		case "mapres":
+			m := map[string]any{}
+			if e.K == "map" {
+				for i, k := range e.Keys {
+					m[k.S] = fromTree(p, a.Ref, e.Elems[i])
+				}
+			}
+			out[a.Name] = m
 		}
 	}
 	return out
@@ -196,7 +219,8 @@ func fromJSON(x any) any {
 }
 
 // restrictValue is the direct oracle's own statement of the property: the attributes of
-// the selected view, nested result types and collection elements under their own view.
+// the selected view; nested result types — direct, in collections, arrays, maps, inside plain
+// user types — under their own view; plain user types in full.
 func restrictValue(p *Pool, t, v string, x any) any {
 	if xs, ok := x.([]any); ok {
 		out := make([]any, len(xs))
@@ -209,29 +233,84 @@ func restrictValue(p *Pool, t, v string, x any) any {
 	if !ok {
 		return x
 	}
-	ty := p.typ(t)
-	vw := ty.view(v)
 	out := map[string]any{}
-	if vw == nil {
+	ty, es, ok := p.entriesOf(t, v)
+	if !ok {
 		return out
 	}
-	for _, e := range vw.Attrs {
+	for _, e := range es {
 		a := ty.attr(e.Attr)
 		val, set := m[e.Attr]
 		if a == nil || !set {
 			continue
 		}
-		if a.isRes() {
-			out[e.Attr] = restrictValue(p, a.Ref, nestedView(&e, a), val)
-		} else {
+		switch {
+		case a.Kind == "mapres":
+			ct, cv := childNode(v, &e, a)
+			mm := map[string]any{}
+			for k, ev := range val.(map[string]any) {
+				mm[k] = restrictValue(p, ct, cv, ev)
+			}
+			out[e.Attr] = mm
+		case a.pointsTo():
+			ct, cv := childNode(v, &e, a)
+			out[e.Attr] = restrictValue(p, ct, cv, val)
+		default:
 			out[e.Attr] = val
 		}
 	}
 	return out
 }
 
+// tripsViewBlindClient: below an array, a map or a plain user type the generated client
+// validates with default-view validators and rebuilds with the generic transform (known
+// finding). True when the rendered value holds, below such a container, an object that lacks a
+// required attribute of its type: only then can the finding show.
+func tripsViewBlindClient(p *Pool, t string, x any, below bool) bool {
+	switch v := x.(type) {
+	case []any:
+		for _, e := range v {
+			if tripsViewBlindClient(p, t, e, below) {
+				return true
+			}
+		}
+	case map[string]any:
+		ty := p.typ(t)
+		if ty == nil {
+			return false
+		}
+		if below && !ty.Plain {
+			for _, a := range ty.Attrs {
+				if _, ok := v[a.Name]; a.Req && !ok {
+					return true
+				}
+			}
+		}
+		for _, a := range ty.Attrs {
+			val, ok := v[a.Name]
+			if !ok || !a.pointsTo() {
+				continue
+			}
+			nb := below || a.container() || ty.Plain
+			if a.Kind == "mapres" {
+				for _, ev := range val.(map[string]any) {
+					if tripsViewBlindClient(p, a.Ref, ev, nb) {
+						return true
+					}
+				}
+				continue
+			}
+			if tripsViewBlindClient(p, a.Ref, val, nb) {
+				return true
+			}
+		}
+	}
+	return false
+}
+
 // diff reports the first difference between what was observed and what the view allows:
-// class is one of attr-outside-view, attr-missing, value-changed, shape.
+// class is one of attr-outside-view, attr-missing, value-changed, shape. The walk follows the
+// design: objects of type t, lists of them, maps of them.
 func diff(p *Pool, t string, want, got any, path string) (class, where string) {
 	switch w := want.(type) {
 	case map[string]any:
@@ -254,18 +333,38 @@ func diff(p *Pool, t string, want, got any, path string) (class, where string) {
 			keys = append(keys, k)
 		}
 		sort.Strings(keys)
+		ty := p.typ(t)
 		for _, k := range keys {
 			if _, ok := g[k]; !ok {
 				return "attr-missing", path + "." + k
 			}
-			nt := t
-			if ty := p.typ(t); ty != nil {
-				if a := ty.attr(k); a != nil && a.isRes() {
-					nt = a.Ref
-				}
+			var a *PAttr
+			if ty != nil {
+				a = ty.attr(k)
 			}
-			if c, wh := diff(p, nt, w[k], g[k], path+"."+k); c != "" {
-				return c, wh
+			switch {
+			case a != nil && a.Kind == "mapres":
+				wm, _ := w[k].(map[string]any)
+				gm, ok := g[k].(map[string]any)
+				if !ok || len(gm) != len(wm) {
+					return "shape", path + "." + k
+				}
+				for _, mk := range vh.SortedKeys(wm) {
+					if _, ok := gm[mk]; !ok {
+						return "shape", path + "." + k
+					}
+					if c, wh := diff(p, a.Ref, wm[mk], gm[mk], path+"."+k+"["+mk+"]"); c != "" {
+						return c, wh
+					}
+				}
+			case a != nil && a.pointsTo():
+				if c, wh := diff(p, a.Ref, w[k], g[k], path+"."+k); c != "" {
+					return c, wh
+				}
+			default:
+				if c, wh := diff(p, "", w[k], g[k], path+"."+k); c != "" {
+					return c, wh
+				}
 			}
 		}
 		return "", ""
@@ -325,7 +424,16 @@ func coqVal(p *Pool, t string, x any, lt leafTab) string {
 					continue
 				}
 				seen[a.Name] = true
-				if a.isRes() {
+				if a.Kind == "mapres" {
+					// a map is printed as the list of its values in key order
+					var xs []any
+					if m, ok := val.(map[string]any); ok {
+						for _, k := range vh.SortedKeys(m) {
+							xs = append(xs, m[k])
+						}
+					}
+					fs = append(fs, kv{coqA(a.Name), coqVal(p, a.Ref, xs, lt)})
+				} else if a.pointsTo() {
 					fs = append(fs, kv{coqA(a.Name), coqVal(p, a.Ref, val, lt)})
 				} else {
 					fs = append(fs, kv{coqA(a.Name), fmt.Sprintf("(VLeaf %d)", lt.id(val))})
@@ -367,12 +475,18 @@ func withMethods(p *Pool, r *vh.RNG) *Pool {
 	// through them. A wrapper is added when every type of the pool is recursive.
 	var roots []*PType
 	for _, t := range p.Types {
-		if !p.reaches(t.Name, t.Name, map[string]bool{}) {
+		if !t.Plain && !p.reaches(t.Name, t.Name, map[string]bool{}) {
 			roots = append(roots, t)
 		}
 	}
 	if len(roots) == 0 {
-		inner := p.Types[r.Intn(len(p.Types))]
+		var rts []*PType
+		for _, t := range p.Types {
+			if !t.Plain {
+				rts = append(rts, t)
+			}
+		}
+		inner := rts[r.Intn(len(rts))]
 		iv := inner.Views[r.Intn(len(inner.Views))].Name
 		w := &PType{Name: "Wrap", Attrs: []PAttr{{Name: "wid", Kind: "int", Req: true}, {Name: "wn", Kind: "res", Ref: inner.Name}, {Name: "wtag", Kind: "str"}, {Name: "wns", Kind: "coll", Ref: inner.Name}},
 			Views: []PView{{Name: "default", Attrs: []PEntry{{Attr: "wid"}, {Attr: "wn"}, {Attr: "wtag"}, {Attr: "wns"}}},
@@ -442,6 +556,29 @@ func tierBCorpus() []*Pool {
 				{Name: "tiny", Attrs: []PEntry{e("a"), e("inner", "tiny"), e("inner2")}},
 				{Name: "ext", Attrs: []PEntry{e("a"), e("inner", "tiny"), e("inner2", "tiny"), e("list", "tiny")}}}}},
 		Methods: []PMethod{{Name: "get", Type: "Outer"}, {Name: "list", Type: "Outer", Coll: true}, {Name: "fixed", Type: "Outer", Fixed: "tiny"}}})
+	for _, p := range cp {
+		switch p.Tag {
+		case "corpus:meta-override-combos":
+			p.Methods = []PMethod{{Name: "get", Type: "Outer"}, {Name: "list", Type: "Outer", Coll: true}, {Name: "fixed", Type: "Outer", Fixed: "ext"}}
+			out = append(out, p)
+		case "corpus:map-values":
+			p.Methods = []PMethod{{Name: "get", Type: "Outer"}, {Name: "list", Type: "Outer", Coll: true}}
+			out = append(out, p)
+		case "corpus:containers":
+			p.Methods = []PMethod{{Name: "get", Type: "Outer"}, {Name: "list", Type: "Outer", Coll: true}, {Name: "fixed", Type: "Outer", Fixed: "tiny"}}
+			out = append(out, p)
+		}
+	}
+	// witness of the known finding container-result-type-validated-under-default-view: an
+	// array (map, plain user type) of a result type rendered under a view that lacks a
+	// required attribute: the client validates the elements with the default-view validator
+	out = append(out, &Pool{Tag: "corpus:witness-container-view", Witness: "container-result-type-validated-under-default-view", Types: []*PType{
+		{Name: "Inner", Attrs: []PAttr{{Name: "i1", Kind: "str", Req: true}, {Name: "i2", Kind: "int"}},
+			Views: []PView{{Name: "default", Attrs: []PEntry{e("i1"), e("i2")}}, {Name: "tiny", Attrs: []PEntry{e("i2")}}}},
+		{Name: "Outer", Attrs: []PAttr{{Name: "a", Kind: "str", Req: true}, {Name: "items", Kind: "arrres", Ref: "Inner"}, {Name: "byKey", Kind: "mapres", Ref: "Inner"}},
+			Views: []PView{{Name: "default", Attrs: []PEntry{e("a"), e("items"), e("byKey")}},
+				{Name: "tiny", Attrs: []PEntry{e("a"), e("items", "tiny"), e("byKey", "tiny")}}}}},
+		Methods: []PMethod{{Name: "get", Type: "Outer"}}})
 	out = append(out, &Pool{Tag: "corpus:recursive-below-root", Types: []*PType{
 		{Name: "Node", Attrs: []PAttr{{Name: "val", Kind: "str", Req: true}, {Name: "child", Kind: "res", Ref: "Node"}, {Name: "kids", Kind: "coll", Ref: "Node"}},
 			Views: []PView{{Name: "default", Attrs: []PEntry{e("val"), e("child"), e("kids", "tiny")}},
@@ -468,6 +605,7 @@ func tierBRandomPool(r *vh.RNG) *Pool {
 			}
 		}
 		if multi {
+			p.makeViewBlindSafe()
 			return p
 		}
 	}
@@ -489,7 +627,7 @@ type stepInfo struct {
 
 var undefinedNames = []string{"nope", "Default", "tiny ", " default", "DEFAULT", "defaul", "default,tiny", "*"}
 
-func runTierB(out, repo, harnessDir string, rng *vh.RNG, nDesigns, nVals int, res *vh.Result) (cases []string, caseInfo []any, err error) {
+func runTierB(self, out, repo, harnessDir string, rng *vh.RNG, nDesigns, nVals int, res *vh.Result) (cases []string, caseInfo []any, err error) {
 	b, err := tierb.NewBatch(filepath.Join(out, "tb"), repo, harnessDir)
 	if err != nil {
 		return nil, nil, err
@@ -504,14 +642,24 @@ func runTierB(out, repo, harnessDir string, rng *vh.RNG, nDesigns, nVals int, re
 	if replayPool != nil {
 		over = 1
 	}
-	for i := 0; len(pools) < over && i < nDesigns*4+len(cand); i++ {
-		var p *Pool
-		if i < len(cand) {
-			p = cand[i]
-		} else {
-			p = tierBRandomPool(rng)
+	for len(cand) < over+nDesigns && replayPool == nil {
+		cand = append(cand, tierBRandomPool(rng))
+	}
+	for i := range cand {
+		cand[i] = withMethods(cand[i], rng)
+	}
+	// a projection that does not terminate is a fatal error: generating code for such a design
+	// would kill this process, so every candidate is projected in a child process first
+	alive := screenPools(self, filepath.Join(out, "screen"), cand)
+	for i, p := range cand {
+		if len(pools) >= over {
+			break
 		}
-		p = withMethods(p, rng)
+		if !alive[i] {
+			res.Count("tierB_design_skipped_projection_does_not_terminate")
+			failSig(res, "project-nonterminating", "expr.Project does not terminate (or fails) on a view of this accepted design; it was left out of tier B", map[string]any{"stream": "tierB/screen", "pool": p})
+			continue
+		}
 		d := p.design(fmt.Sprintf("v%d", i))
 		bu, oc := b.Add(d, func(root *expr.RootExpr, bu *tierb.Built) {})
 		if bu == nil {
@@ -721,7 +869,7 @@ func runTierB(out, repo, harnessDir string, rng *vh.RNG, nDesigns, nVals int, re
 			}
 			want := restrictValue(p, t, sel, in.Value)
 			switch {
-			case ob.Panic != "":
+			case ob.Panic != "" && !tripsViewBlindClient(p, t, want, false):
 				failSig(res, "client-panic", "the generated client panicked on a response to a valid result: "+firstLine(ob.Panic), input)
 			case ob.Invoked != 1:
 				failSig(res, "service-invoked-"+fmt.Sprint(ob.Invoked)+"-times", "the service method did not run exactly once", input)
@@ -739,7 +887,11 @@ func runTierB(out, repo, harnessDir string, rng *vh.RNG, nDesigns, nVals int, re
 				} else if hdr != nil {
 					failSig(res, "goa-view-header-on-fixed-view", fmt.Sprintf("goa-view %q sent although the view is fixed in the design", *hdr), input)
 				}
-				if ob.ClientErr != nil {
+				if (ob.ClientErr != nil || ob.Panic != "") && tripsViewBlindClient(p, t, want, false) {
+					// known finding: only possible when, below an array / map / plain user type, a rendered
+					// object lacks a required attribute of its type (never inside the main envelope)
+					failSig(res, "container-result-type-validated-under-default-view", fmt.Sprintf("valid result under view %q refused by the generated client (%s): below an array / map / plain user type the client validates with the default-view validator and rebuilds with the generic transform", sel, clientFailure(ob)), input)
+				} else if ob.ClientErr != nil {
 					failSig(res, "client-error-on-valid-response", fmt.Sprintf("client returned %s: %s for a valid result under view %q", ob.ClientErr.Name, ob.ClientErr.Message, sel), input)
 				} else if c, wh := diff(p, t, want, client, "result"); c != "" {
 					input["expected_result"], input["client_result"] = want, client
@@ -788,7 +940,7 @@ func runTierB(out, repo, harnessDir string, rng *vh.RNG, nDesigns, nVals int, re
 		cl := "ONoResp"
 		switch {
 		case ob.Panic != "":
-			cl = "OErr" // reported by the oracle; the model has no client panic
+			cl = "OPanic"
 		case ob.ClientErr != nil && ob.Resp != nil:
 			cl = "OErr"
 		case ob.ClientErr == nil && ob.HasResult:
@@ -855,4 +1007,77 @@ func dropClass(buildErr string) string {
 		return "other"
 	}
 	return "unknown"
+}
+
+func clientFailure(ob *rt.Obs) string {
+	if ob.Panic != "" {
+		return "panic: " + firstLine(ob.Panic)
+	}
+	if ob.ClientErr != nil {
+		return ob.ClientErr.Name + ": " + ob.ClientErr.Message
+	}
+	return ""
+}
+
+// screenPools projects every result type of every pool under every view in a child process
+// and reports the pools on which all projections came back.
+func screenPools(self, dir string, pools []*Pool) []bool {
+	os.MkdirAll(dir, 0o755)
+	plan := make([][]ProjObs, len(pools))
+	for i, p := range pools {
+		p.coqEnv()
+		for _, t := range p.Types {
+			if t.Plain {
+				continue
+			}
+			for _, v := range t.Views {
+				plan[i] = append(plan[i], ProjObs{Type: t.Name, View: v.Name})
+			}
+		}
+	}
+	pf := filepath.Join(dir, "pools.json")
+	bs, _ := json.Marshal(pools)
+	os.WriteFile(pf, bs, 0o644)
+	bs, _ = json.Marshal(plan)
+	os.WriteFile(pf+".plan", bs, 0o644)
+	nb, _ := json.Marshal(map[string][]string{"T": tNames, "V": vNames, "A": aNames})
+	os.WriteFile(pf+".names", nb, 0o644)
+	of := filepath.Join(dir, "obs.jsonl")
+	os.Remove(of)
+	alive := make([]bool, len(pools))
+	from := 0
+	for tries := 0; from < len(pools) && tries < len(pools)+2; tries++ {
+		ctx, cancel := context.WithTimeout(context.Background(), childBudget(len(pools)-from))
+		cmd := exec.CommandContext(ctx, self, "-child", "tiera", "-pools", pf, "-childout", of, "-from", fmt.Sprint(from))
+		err := cmd.Run()
+		cancel()
+		last, done := from-1, map[int]bool{}
+		if f, e := os.Open(of); e == nil {
+			sc := bufio.NewScanner(f)
+			sc.Buffer(make([]byte, 1<<20), 1<<26)
+			for sc.Scan() {
+				var l childLine
+				if json.Unmarshal(sc.Bytes(), &l) != nil {
+					continue
+				}
+				if l.Pool > last {
+					last = l.Pool
+				}
+				if l.Kind == "pool" || l.Kind == "rejected" { // rejected by the DSL: b.Add reports it
+					done[l.Pool] = true
+				}
+			}
+			f.Close()
+		}
+		for i := range alive {
+			if done[i] {
+				alive[i] = true
+			}
+		}
+		if err == nil {
+			break
+		}
+		from = last + 1 // the pool that was running when the child died stays dead
+	}
+	return alive
 }
